@@ -65,32 +65,32 @@ type c20Ref struct {
 }
 
 type c20Scenario struct {
-	Entries     int        `json:"entries"`
-	First       []c20Entry `json:"first_entries"`
-	PlainBytes  int        `json:"plain_bytes"`
-	Gzip        bool       `json:"gzip"`
-	PayloadLen  int        `json:"payload_bytes"`
-	Fault       string     `json:"fault"`
-	FaultAt     int        `json:"fault_offset"`
-	Sweep       string     `json:"sweep,omitempty"`
-	Entry       string     `json:"entry_point"`
-	CapEntries  int        `json:"entry_channel_capacity"`
-	CapErrors   int        `json:"error_channel_capacity"`
-	Consumer    string     `json:"consumer"`
-	Reader      string     `json:"reader_policy"`
-	RefClass    string     `json:"reference_class"`
-	RefEntries  int        `json:"reference_entries_completed"`
-	RefErr      string     `json:"reference_error,omitempty"`
-	BeforeDmg   int        `json:"entries_complete_before_damage"`
-	GotEntries  int        `json:"received_entries"`
-	GotErrors   int        `json:"received_errors"`
-	ClosedE     bool       `json:"entries_closed"`
-	ClosedX     bool       `json:"errors_closed"`
-	End         string     `json:"scheduler_end"`
-	DocHead     string     `json:"document_head,omitempty"`
-	Errors      []string   `json:"received_error_texts,omitempty"`
-	DamageCtx   string     `json:"plaintext_around_first_damaged_byte,omitempty"`
-	Panics      []core.PanicRec `json:"panics,omitempty"`
+	Entries    int             `json:"entries"`
+	First      []c20Entry      `json:"first_entries"`
+	PlainBytes int             `json:"plain_bytes"`
+	Gzip       bool            `json:"gzip"`
+	PayloadLen int             `json:"payload_bytes"`
+	Fault      string          `json:"fault"`
+	FaultAt    int             `json:"fault_offset"`
+	Sweep      string          `json:"sweep,omitempty"`
+	Entry      string          `json:"entry_point"`
+	CapEntries int             `json:"entry_channel_capacity"`
+	CapErrors  int             `json:"error_channel_capacity"`
+	Consumer   string          `json:"consumer"`
+	Reader     string          `json:"reader_policy"`
+	RefClass   string          `json:"reference_class"`
+	RefEntries int             `json:"reference_entries_completed"`
+	RefErr     string          `json:"reference_error,omitempty"`
+	BeforeDmg  int             `json:"entries_complete_before_damage"`
+	GotEntries int             `json:"received_entries"`
+	GotErrors  int             `json:"received_errors"`
+	ClosedE    bool            `json:"entries_closed"`
+	ClosedX    bool            `json:"errors_closed"`
+	End        string          `json:"scheduler_end"`
+	DocHead    string          `json:"document_head,omitempty"`
+	Errors     []string        `json:"received_error_texts,omitempty"`
+	DamageCtx  string          `json:"plaintext_around_first_damaged_byte,omitempty"`
+	Panics     []core.PanicRec `json:"panics,omitempty"`
 }
 
 func c20Esc(t *core.Tape, s string) string {
